@@ -77,6 +77,15 @@ def protoLe (cross : Bool) (L : Int) (a b : Proto) : Bool := keyLe (protoKey cro
 def uniqueProtoclusters (cross : Bool) (L : Int) (enum : List Proto) : List Proto :=
   sortBy (protoLe cross L) enum
 
+/-- the shape the property forbids in the branch after the origin: the tie-break "shifted over the
+    origin" from the protocluster's own extent instead of its core — the key stops separating
+    protoclusters of one product on the same coordinates -/
+def protoKeyOwnExtent (cross : Bool) (L : Int) (p : Proto) : Int × Int × Int × Int × Int :=
+  if cross && decide (2 * p.start < L) then (p.start + L, -p.len, p.product, p.start + L, p.start + p.len + L)
+  else (p.start, -p.len, p.product, p.coreStart, p.coreEnd)
+def uniqueProtoclustersOwnExtent (cross : Bool) (L : Int) (enum : List Proto) : List Proto :=
+  sortBy (fun a b => keyLe (protoKeyOwnExtent cross L a) (protoKeyOwnExtent cross L b)) enum
+
 /-- before D54 a region that does not span the origin returned `sorted(clusters)`, which compares
     `(start, -len)` only (`CDSCollection.__lt__` between areas neither of which contains the other) -/
 def protoLeOld (a b : Proto) : Bool := decide (a.start < b.start ∨ (a.start = b.start ∧ -a.len ≤ -b.len))
@@ -189,6 +198,24 @@ def refineAll (env : Env) (neighbour : Bool) (genes : List (Int × List Hit)) : 
   genes.filterMap fun g =>
     let refined := refine env neighbour g.2
     if refined.isEmpty then none else some (g.1, refined)
+
+/-! ### `_merge_domain_list`: the order in which the profiles' categories are walked -/
+
+/-- the hits `_merge_domain_list` appends for profile `p` (C13's `mergeCat` over the profile's hits) -/
+def mergedOfProfile (env : Env) (domains : List Hit) (p : Int) : List Hit :=
+  match domains.filter (fun d => d.prof == p) with
+  | [] => []
+  | h :: t => ASV.Refine.mergeCat (3 * env.len h.prof) h t
+
+/-- C13's `mergeDomainList` with the walk over the categories made explicit: the code walks the
+    `categories` dict (insertion order = first occurrence in the sorted hit list, `enum = id`);
+    walking a *set* of profile names instead is any other `enum` -/
+def mergeDomainListE (enum : List Int → List Int) (env : Env) (domains : List Hit) : List Hit :=
+  sortBy Hit.leStart ((enum (ASV.Refine.firstOcc (domains.map (·.prof)))).flatMap (mergedOfProfile env domains))
+
+/-- default-mode `refine` with that walk -/
+def refineMergeE (enum : List Int → List Int) (env : Env) (results : List Hit) : List Hit :=
+  ASV.Refine.removeIncomplete env (ASV.Refine.removeOverlapping env (mergeDomainListE enum env (ASV.Refine.sortHits results)))
 
 /-! ### writing a record: `Feature.to_biopython` + `Record.to_biopython` -/
 
